@@ -114,7 +114,8 @@ fn real_main() {
         writeln!(cases_f, "end").unwrap();
         cases_f.flush().unwrap();
         let l2 = lines.clone();
-        let out = match family.as_str() {
+        let l3 = lines.clone();
+        let mut out = match family.as_str() {
             "mapping" => guarded(move || mapping::run_case(&l2)),
             "amo" => guarded(move || amo::run_case(&l2)),
             "cache" => guarded(move || cache::run_case(&l2)),
@@ -123,6 +124,15 @@ fn real_main() {
             "solve" | "soft" | "conflictfree" | "lazy" | "cancel" | "reuse" | "reuse-async" | "async" | "async-cf" | "amo-solve" => guarded(move || solve::run_case(&l2)),
             f => panic!("unknown family {f}"),
         };
+        // C06 (in-process part): a second run with fresh solver instances must give identical observations
+        if arg(&args, "--twice").is_some() {
+            let out2 = match family.as_str() {
+                "snapshot" => guarded(move || snapshot::run_case(&l3)),
+                _ => guarded(move || solve::run_case(&l3)),
+            };
+            let same = out == out2;
+            out.push(format!("rerun-same {}", same as u8));
+        }
         writeln!(impl_f, "case {i} {family}").unwrap();
         for l in &out { writeln!(impl_f, "{l}").unwrap(); }
         writeln!(impl_f, "end").unwrap();
